@@ -117,7 +117,7 @@ def decide(prop: str, results: list[OR], tier: str, seed: int, t0: float, meta: 
     open_known = {k["id"]: k for k in known.get("open", []) if k["property"] == prop}
     violations, undecided, faults = [], [], []
     proved = [r for r in results if r.kind != "Bd" and not r.must_fail and r.status == PROVED]
-    counted = [r for r in results if r.kind != "Bd" and not r.must_fail]
+    counted = [r for r in results if r.kind != "Bd" and not r.must_fail and not (r.known and r.status == REFUTED)]
     guards_ok = True
     for r in results:
         if r.must_fail:
@@ -187,6 +187,10 @@ def decide(prop: str, results: list[OR], tier: str, seed: int, t0: float, meta: 
 
 
 def write_evidence(prop, results, tier, seed, wall, meta, nviol):
+    kf = [r for r in results if r.known and r.status == REFUTED]
+    results = [r for r in results if not (r.known and r.status == REFUTED)]
+    meta = dict(meta)
+    meta["known_findings_hit"] = [{"id": r.known, "obligation": r.id, "witness": r.witness, "replay": r.replay} for r in kf]
     counted = [r for r in results if r.kind != "Bd" and not r.must_fail]
     proved = [r for r in counted if r.status == PROVED]
     bd = [r for r in results if r.kind == "Bd"]
@@ -216,6 +220,7 @@ def write_evidence(prop, results, tier, seed, wall, meta, nviol):
             "bounded_standins": [{"id": r.id, "target": r.target, "bound": r.bound, "cases": r.cases, "status":
                                   ("no counterexample within bound (proves nothing)" if r.status == PROVED else r.status),
                                   "desc": r.desc} for r in bd],
+            "known_findings_still_failing": meta.get("known_findings_hit", []),
             "unverified_surroundings": meta.get("unverified_surroundings", []),
             "not_addressed": meta.get("not_addressed", []),
             "explanation": meta.get("explanation", ""),
